@@ -191,6 +191,7 @@ type stream struct {
 	pause    time.Duration // between chunks
 	end      string        // "fin" | "rst" | "hold" (keep open while probing)
 	viaTLS   bool          // speak TLS to the listener first (tls listener), then send the bytes inside
+	connect  string        // send "CONNECT <target>" first, expect 200, perform a TLS handshake with the proxy (MITM), then send the bytes inside
 }
 
 func hostileStreams(tier string, seed uint64, originAddr string) []stream {
@@ -244,6 +245,19 @@ func hostileStreams(tier string, seed uint64, originAddr string) []stream {
 	add("tls-empty-close", "tls", "fin")
 	ss = append(ss, stream{name: "tls-inner-garbage", listener: "tls", viaTLS: true, end: "fin", chunks: [][]byte{[]byte("\xff\xfe\x00garbage\r\n\r\n")}})
 	ss = append(ss, stream{name: "tls-inner-long-line", listener: "tls", viaTLS: true, end: "fin", chunks: [][]byte{[]byte("GET /"), rep("a", 1<<20)}})
+
+	// MITM: certificates are minted for whatever host the CONNECT names
+	for i, h := range []string{"exa\xffmple.invalid:443", strings.Repeat("a", 300) + ".invalid:443", "a..b.invalid:443", "[::1]:443", ":443",
+		"*.example.invalid:443", "xn--80ak6aa92e.invalid:443", "UPPER.Invalid:443", "127.0.0.1:443", "a_b.invalid:443", "-dash.invalid:443",
+		strings.Repeat("l.", 120) + "invalid:443", "exam ple.invalid:443", "%41.invalid:443"} {
+		ss = append(ss, stream{name: fmt.Sprintf("mitm-cert-for-odd-host-%d", i), listener: "mitm", connect: h, end: "fin",
+			chunks: [][]byte{[]byte("GET / HTTP/1.1\r\nHost: " + h + "\r\n\r\n")}})
+	}
+	ss = append(ss, stream{name: "mitm-inner-garbage", listener: "mitm", connect: originAddr, end: "fin", chunks: [][]byte{[]byte("\x00\xffgarbage\r\n\r\n")}})
+	ss = append(ss, stream{name: "mitm-inner-invalid-utf8-host", listener: "mitm", connect: originAddr, end: "fin",
+		chunks: [][]byte{[]byte("GET / HTTP/1.1\r\nHost: \xc3\x28.invalid\r\n\r\n")}})
+	ss = append(ss, stream{name: "mitm-inner-absolute-http-url", listener: "mitm", connect: originAddr, end: "fin",
+		chunks: [][]byte{[]byte("GET http://" + originAddr + "/probe HTTP/1.1\r\nHost: x\r\nX-Forwarded-Proto: http\r\n\r\n")}})
 
 	// seeded mutations of a valid request
 	r := rng.New(seed)
@@ -462,6 +476,20 @@ func RunHostile(self, tier string, seed uint64, only string) []HostileResult {
 				}
 				rw = tc
 			}
+			if s.connect != "" {
+				c.Write([]byte("CONNECT " + s.connect + " HTTP/1.1\r\nHost: " + s.connect + "\r\n\r\n"))
+				co := ReadResponse(c, true, 4*time.Second)
+				if co.P.Verdict != VComplete || co.P.Status != 200 {
+					c.Close()
+					return "connect refused: " + truncate(co.Raw, 80), co.P.Verdict, co.P.Status
+				}
+				tc, err := TLSClient(c, "odd.invalid")
+				if err != nil {
+					c.Close()
+					return "mitm handshake: " + err.Error(), "", 0
+				}
+				rw = tc
+			}
 			// read concurrently so that the proxy is never blocked on writing to us
 			got := make(chan ClientObs, 1)
 			go func() { got <- ReadResponse(rw, false, 4*time.Second) }()
@@ -483,7 +511,7 @@ func RunHostile(self, tier string, seed uint64, only string) []HostileResult {
 				go func() { time.Sleep(3 * time.Second); c.Close() }()
 				return "(held open)", "", 0
 			default:
-				if tc, ok := c.(*net.TCPConn); ok && !s.viaTLS {
+				if tc, ok := c.(*net.TCPConn); ok && !s.viaTLS && s.connect == "" {
 					tc.CloseWrite()
 				} else {
 					rw.Close()
@@ -512,6 +540,66 @@ func RunHostile(self, tier string, seed uint64, only string) []HostileResult {
 			co := ReadResponse(c, false, 5*time.Second)
 			return truncate(co.Raw, 120), co.P.Verdict, co.P.Status
 		})
+	}
+	// seeded mutations of well-formed origin replies
+	{
+		r := rng.New(seed ^ 0x5eed)
+		nrep := 40
+		if tier == "thorough" {
+			nrep = 400
+		}
+		bases := []string{
+			"HTTP/1.1 200 OK\r\nContent-Length: 5\r\nContent-Type: text/plain\r\n\r\nhello",
+			"HTTP/1.1 200 OK\r\nTransfer-Encoding: chunked\r\nTrailer: X-T\r\n\r\n5\r\nhello\r\n0\r\nX-T: v\r\n\r\n",
+			"HTTP/1.1 304 Not Modified\r\nETag: \"x\"\r\n\r\n",
+			"HTTP/1.1 101 Switching Protocols\r\nConnection: Upgrade\r\nUpgrade: x\r\n\r\n",
+			"HTTP/1.1 200 OK\r\nContent-Type: text/event-stream\r\n\r\ndata: 1\n\ndata: 2\n\n",
+			"HTTP/1.0 200 OK\r\nConnection: keep-alive\r\nContent-Length: 2\r\n\r\nok",
+		}
+		pool := []string{"\r", "\n", "\x00", ":", " ", "\xff", "-1", "999999999999999999999", "Content-Length: 7\r\n", "Transfer-Encoding: chunked\r\n", "\r\n\r\n", "HTTP/1.1 100 Continue\r\n\r\n", "ffffffffffffffff\r\n", "Connection: close\r\n", "Content-Encoding: gzip\r\n"}
+		for i := 0; i < nrep; i++ {
+			bs := []byte(bases[r.Intn(len(bases))])
+			for m := 1 + r.Intn(3); m > 0; m-- {
+				ins := []byte(pool[r.Intn(len(pool))])
+				switch r.Intn(4) {
+				case 0:
+					p := r.Intn(len(bs) + 1)
+					bs = append(bs[:p], append(append([]byte{}, ins...), bs[p:]...)...)
+				case 1:
+					if len(bs) > 2 {
+						p := r.Intn(len(bs) - 1)
+						q := p + 1 + r.Intn(len(bs)-p-1)
+						bs = append(bs[:p], bs[q:]...)
+					}
+				case 2:
+					if len(bs) > 0 {
+						bs[r.Intn(len(bs))] = byte(r.Intn(256))
+					}
+				case 3:
+					if len(bs) > 0 {
+						bs = bs[:r.Intn(len(bs))]
+					}
+				}
+			}
+			name := fmt.Sprintf("origin-mutant-%d", i)
+			end := []string{"fin", "rst"}[r.Intn(2)]
+			replyMu.Lock()
+			replyFor[name] = struct {
+				reply [][]byte
+				end   string
+			}{[][]byte{bs}, end}
+			replyMu.Unlock()
+			run(name, "origin", len(bs), func() (string, string, int) {
+				c, err := net.DialTimeout("tcp", ch.info.Plain, 2*time.Second)
+				if err != nil {
+					return "dial: " + err.Error(), "", 0
+				}
+				defer c.Close()
+				c.Write([]byte("GET http://" + origin.Addr + "/hostile/" + name + " HTTP/1.1\r\nHost: " + origin.Addr + "\r\n\r\n"))
+				co := ReadResponse(c, false, 3*time.Second)
+				return truncate(co.Raw, 120), co.P.Verdict, co.P.Status
+			})
+		}
 	}
 	if ch != nil {
 		ch.stop()
